@@ -33,7 +33,8 @@ func handlePUSH(params x86genParams, ctx *CodeGenContext) ([]byte, error) {
 	code := []byte{}
 
 	// Add prefixes if required
-	if opsInterface.Require66h() { // Check for operand size prefix
+	has66 := opsInterface.Require66h()
+	if has66 { // Check for operand size prefix
 		code = append(code, 0x66)
 	}
 	if opsInterface.Require67h() { // Check for address size prefix
@@ -124,7 +125,7 @@ func handlePUSH(params x86genParams, ctx *CodeGenContext) ([]byte, error) {
 		if immVal >= -128 && immVal <= 127 { // Check if imm8 fits
 			code = append(code, 0x6A, byte(immVal)) // Append opcode and immediate
 			return code, nil
-		} else if ctx.BitMode == cpu.MODE_16BIT { // Use cpu constant
+		} else if (ctx.BitMode == cpu.MODE_16BIT) != has66 { // 16-bit operand size (66h toggles the mode default)
 			code = append(code, 0x68) // Append opcode
 			code = append(code, byte(immVal&0xFF), byte((immVal>>8)&0xFF))
 			return code, nil
